@@ -28,8 +28,8 @@ func init() {
 	mk("R-ERRSTUCK", []string{"C01"}, "a non-EOF error return consumes at least one byte (calling Next again cannot repeat the same error forever)")
 	mk("R-TILE", []string{"C02"}, "every non-error return yields the Shift() that is the last cursor operation; Skip only drops in-tag whitespace")
 	mk("R-SPELL", []string{"C06", "C07", "C09", "C10", "C11"}, "fixed-spelling token types are returned only after consuming exactly their spelling")
-	mk("R-INPLACE", []string{"C02"}, "input bytes are rewritten in place only at the audited sites (HTML name case folding, XML attribute whitespace)")
-	mk("R-RESTORE", []string{"C02", "C06", "C07"}, "a scanner that reports failure without an error leaves the cursor where it started")
+	mk("R-INPLACE", []string{"C02"}, "a call that rewrites input bytes in place returns only the tokens that may carry that rewrite (HTML: case folding with tag/attribute tokens; XML: space over tab/newline with attribute tokens)")
+	mk("R-RESTORE", []string{"C02", "C06", "C07"}, "a scanner that puts the cursor back on some failing path puts it back on every failing path")
 	mk("R-EOFNEST", []string{"C08"}, "css parser: while a block is open ErrorGrammar is returned only together with a recorded parse error (the end of input is never reported silently inside a block)")
 	mk("R-TAGSTATE", []string{"C09", "C11"}, "attribute tokens only between a start tag and its closing token (inTag protocol)")
 }
